@@ -3,6 +3,8 @@ package e2e
 import (
 	"fmt"
 	"math/rand"
+	"sync/atomic"
+	"time"
 
 	"verifharness/internal/upstream"
 )
@@ -242,6 +244,25 @@ func GenScenario(r *rand.Rand, family string, idx int, o Opt) Scenario {
 		}
 		cs = append(cs, long)
 		sc.Gens = []GenSpec{{Conns: cs, UpScript: all(s), WaitAcked: true}}
+	case "stop-while-forwarding":
+		// One key set, a large in-memory window and a forwarding client that is slower than the producers (StopOverlapGate):
+		// when the stop arrives the window holds many chunks; the buffer saves them one by one while the client, whose
+		// connection the stop has not yet aborted, is still reading from the same (closed) channel.
+		sc.Outputs = 1
+		sc.MemWindow = 64
+		sc.ChunkBytes = 300
+		sc.MaxDurMs = 0
+		sc.MaxPending = 10
+		var cs []ConnSpec
+		for c := 0; c < 1+r.Intn(2); c++ {
+			one := ConnSpec{ID: nextID}
+			nextID++
+			for q := 1; q <= 16+r.Intn(10); q++ {
+				one.Recs = append(one.Recs, Rec{Conn: one.ID, Seq: q, App: "appA", Sev: 6, Host: "h1", Kind: "plain", Pad: 40 + r.Intn(40)})
+			}
+			cs = append(cs, one)
+		}
+		sc.Gens = []GenSpec{{Conns: cs, UpScript: healthy(), StopDelayMs: r.Intn(6)}, {UpScript: healthy(), WaitAcked: true}}
 	case "session-renewal":
 		sc.MaxDurMs = 20 + r.Intn(60)
 		cs := conns()
@@ -257,4 +278,41 @@ func GenScenario(r *rand.Rand, family string, idx int, o Opt) Scenario {
 		sc.Gens = []GenSpec{{Conns: cs, UpScript: healthy(), WaitAcked: true}}
 	}
 	return sc
+}
+
+// StopOverlapGate returns the vhook function for the family stop-while-forwarding. Before the stop the forwarding client is
+// slowed after every send, so that the in-memory window fills. From the moment the buffer starts its shutdown save
+// (buffer.feeder.beforeSave) every file write is slowed, and the goroutine that aborts the client's connection on the stop
+// signal is held (worker.stop.beforeAbort) until the save has written two files and the client has completed two more sends,
+// or maxHold has passed: the overlap of "buffer saves the window" and "client still forwards from the window", which the
+// scheduler otherwise produces only once in thousands of runs. overlapped reports whether both happened (on a tree where the
+// client stops reading once the stop is requested, the hold simply runs out and nothing is forwarded after the save began).
+func StopOverlapGate(perSend, perWrite, maxHold time.Duration) (hook func(point string), overlapped func() bool, sentAfterStop func() int64, disable func()) {
+	var beforeSave, off atomic.Bool
+	var saves, sentAfter atomic.Int64
+	return func(point string) {
+			if off.Load() { // later generations run unperturbed and are not counted
+				return
+			}
+			switch point {
+			case "session.send.afterSend":
+				if beforeSave.Load() {
+					sentAfter.Add(1)
+				} else {
+					time.Sleep(perSend)
+				}
+			case "buffer.feeder.beforeSave":
+				beforeSave.Store(true)
+			case "files.write.afterOpen":
+				if beforeSave.Load() {
+					saves.Add(1)
+					time.Sleep(perWrite)
+				}
+			case "worker.stop.beforeAbort":
+				for dl := time.Now().Add(maxHold); time.Now().Before(dl) && (saves.Load() < 2 || sentAfter.Load() < 2); {
+					time.Sleep(200 * time.Microsecond)
+				}
+			}
+		}, func() bool { return saves.Load() >= 2 && sentAfter.Load() >= 2 },
+		sentAfter.Load, func() { off.Store(true) }
 }
